@@ -26,6 +26,13 @@ CLAIMED = {
          "re-translated on every run and the translation is validated against the values the real code returns for every pair, constant and element.",
          "Lean kernel + three standard axioms; translator tools/translate/tr_c20.py; hand-typed CODATA 2018/SI/IUPAC references; 4 digits read as rel 5e-4.",
          "6/C20"),
+ "C14": ("Lean 4 proof (partition of the unit interval for every tree shape by structural induction, totality, construction for every tie order; "
+         "positivity/linearity/detailed balance/waiting time over the reals about the Marcus expression regenerated from rate_engine.cc) + correspondence",
+         "Tree theorems quantify over every tree shape, offset and lookup argument; rate theorems are about an expression re-translated from "
+         "the source on every run. The models are tied to the working tree by dumping the real huffmanTree of GNode (thresholds, lookups at 0, 1, every "
+         "threshold, +-1 ulp, midpoints; per-event measure compared exactly on dyadic rates) and by running Rate_Engine::Rate on generated pairs.",
+         "Lean kernel + three standard axioms; translator tools/translate/tr_c14.py (cexpr); double rounding of thresholds modelled not verified; Promotetime translated, not executed.",
+         "6/C14"),
 }
 REASONS = {}
 
